@@ -95,7 +95,7 @@ theorem no_meta_left (u : Nat) (t : String) (a : Attrs) (cs : List Node) (v : Na
 /-- no foreign-namespace element and no foreign-namespace attribute is left after `remove_nonsvg_content` -/
 theorem no_foreign_left (ng : Bool) (n : Node) (v : Nat) (t' : String) (a' : Attrs) (k : List Node)
     (hm : Node.elem v t' a' k ∈ flatList (rewrite (nonSvgPass ng).f n)) :
-    goodNs ng t' = true := by
+    goodElemNs t' = true := by
   have := rewrite_clean (nonSvgPass ng) (stable_nonsvg ng) n _ hm
   simpa [LocalPass.noise, nonSvgPass] using this
 
